@@ -40,7 +40,7 @@ FIELDS = {
     "CFConfig": {"self.graph.graph": ("self_graph_graph", "dictD"), "self.graph.vertices": ("self_graph_vertices", "set"), "self.q_vertex": ("self_q_vertex", "key")},
     "CFOrientation": {"self.orientation": ("self_orientation", "dictD"), "self.graph.graph": ("self_graph_graph", "dictD"), "self.in_degree": ("self_in_degree", "dictZ"),
                       "self.out_degree": ("self_out_degree", "dictZ"), "self.is_full": ("self_is_full", "bool"), "self.is_full_checked": ("self_is_full_checked", "bool"),
-                      "self.graph.vertices": ("self_graph_vertices", "set")},
+                      "self.graph.vertices": ("self_graph_vertices", "set"), "self.graph.vertex_total_valence": ("self_graph_vertex_total_valence", "dictZ")},
 }
 FIELDS["CFConfigMoves"] = {"self.q_vertex": ("self_q_vertex", "key"), "self.v_tilde_vertices": ("self_v_tilde_vertices", "set"),
                            "self.divisor.degrees": ("self_divisor_degrees", "dictZ"), "self.divisor.graph.graph": ("self_divisor_graph_graph", "dictD"),
@@ -62,6 +62,7 @@ TARGETS = [
     ("chipfiring/CFOrientation.py", "CFOrientation", "set_orientation"), ("chipfiring/CFOrientation.py", "CFOrientation", "check_fullness"),
     ("chipfiring/CFOrientation.py", "CFOrientation", "get_in_degree"), ("chipfiring/CFOrientation.py", "CFOrientation", "get_out_degree"),
     ("chipfiring/CFOrientation.py", "CFOrientation", "get_orientation"), ("chipfiring/CFOrientation.py", "CFOrientation", "is_source"), ("chipfiring/CFOrientation.py", "CFOrientation", "is_sink"),
+    ("chipfiring/CFOrientation.py", "CFOrientation", "divisor"), ("chipfiring/CFOrientation.py", "CFOrientation", "canonical_divisor"),
     ("chipfiring/CFConfig.py", "CFConfigMoves", "__init__"), ("chipfiring/CFConfig.py", "CFConfigMoves", "get_degree_at"), ("chipfiring/CFConfig.py", "CFConfigMoves", "is_non_negative"), ("chipfiring/CFConfig.py", "CFConfigMoves", "get_degree_sum"), ("chipfiring/CFConfig.py", "CFConfigMoves", "get_q_underlying_degree"),
     ("chipfiring/CFConfig.py", "CFConfigMoves", "_is_comparable_to"), ("chipfiring/CFConfig.py", "CFConfigMoves", "__eq__"), ("chipfiring/CFConfig.py", "CFConfigMoves", "__ge__"), ("chipfiring/CFConfig.py", "CFConfigMoves", "__le__"),
     ("chipfiring/CFConfig.py", "CFConfigMoves", "set_fire"), ("chipfiring/CFConfig.py", "CFConfigMoves", "lending_move"), ("chipfiring/CFConfig.py", "CFConfigMoves", "borrowing_move"),
@@ -151,6 +152,23 @@ class Fn:
             d, td = self.expr(e.func.value); k, tk = self.expr(e.args[0])
             if td != "dictD" or tk != "key": bad(e, "get with an empty-dictionary default on %s" % td)
             return "(d_get %s [] %s)" % (k, d), "dictZ"
+        if isinstance(e, ast.Call) and isinstance(e.func, ast.Attribute) and ast.unparse(e.func.value) == "self.graph" and DONE.get(("CFGraph", e.func.attr)) is not None and not e.keywords:
+            # a read-only CFGraph method on this object's graph
+            callee = DONE[("CFGraph", e.func.attr)]
+            if callee.writes or callee.rty is None or callee.uses_order or callee.objargs or len(e.args) != len(callee.params): bad(e, "method of the graph")
+            args = []
+            for fld in callee.reads:
+                mine = FIELDS[self.cls].get("self.graph." + fld[5:])
+                if not fld.startswith("self_") or not mine: bad(e, "field %s of the graph" % fld)
+                if mine[0] not in self.reads: self.reads.append(mine[0])
+                args.append(mine[0])
+            for a_, (_, ty_) in zip(e.args, callee.params):
+                t_, tt_ = self.expr(a_)
+                if tt_ != ty_: bad(e, "argument type")
+                args.append(t_)
+            call = "CFGraph_%s %s" % (e.func.attr, " ".join(args))
+            if not callee.can_raise: return "(%s)" % call, callee.rty
+            t = self.fresh(); self.pending.append((t, "CALL_ " + call)); self.can_raise = True; return t, callee.rty
         if isinstance(e, ast.List) and not e.elts: return "(@nil (nat * Z))", "pairs"        # (only ever appended to with (name, int) pairs: checked at the append)
         if isinstance(e, ast.Call) and isinstance(e.func, ast.Name) and e.func.id == "isinstance" and len(e.args) == 2 and isinstance(e.args[0], ast.Name) \
                 and self.env.get(e.args[0].id) == "Z" and ast.unparse(e.args[1]) == "int": return "true", "bool"      # a parameter annotated int (assumption of the tie: callers respect the annotation)
@@ -390,7 +408,7 @@ class Fn:
         if isinstance(s, ast.Raise): self.can_raise = True; return "EXN_"
         if isinstance(s, ast.Return):
             if s.value is None: bad(s, "bare return")
-            if isinstance(s.value, ast.Call) and isinstance(s.value.func, ast.Name) and s.value.func.id == "CFDivisor" and self.cls == "CFDivisor" and len(s.value.args) == 2 and not s.value.keywords \
+            if isinstance(s.value, ast.Call) and isinstance(s.value.func, ast.Name) and s.value.func.id == "CFDivisor" and self.cls in ("CFDivisor", "CFOrientation") and len(s.value.args) == 2 and not s.value.keywords \
                     and ast.unparse(s.value.args[0]) == "self.graph" and DONE.get(("CFDivisor", "__init__")) is not None:
                 # return CFDivisor(self.graph, pairs): the constructor translated above, on this object's own graph; the result is the new object's (degrees, total_degree)
                 ctor = DONE[("CFDivisor", "__init__")]; lst, tl = self.expr(s.value.args[1])
@@ -496,7 +514,15 @@ class Fn:
                 return self.wrap("match CFDivisor_%s %s with PyExn %s => EXN_ | PyOk %s =>\n  %s end" % (c.func.attr, " ".join(args), self.state_tuple(ws), self.state_tuple(ws), body))
             if ast.unparse(c.func.value) == "self":
                 callee = DONE.get((self.cls, c.func.attr))
-                if not callee or callee.rty is not None: bad(s, "call of an untranslated method / of a method with a result")
+                if not callee: bad(s, "call of an untranslated method")
+                if callee.rty is not None:
+                    # the result of the call is dropped; only its effect on the fields remains
+                    if not callee.writes or not callee.can_raise: bad(s, "a call whose result is dropped and that has no effect")
+                    args = self.call_args(callee, c); pre = self.pending; self.pending = []
+                    for w in callee.writes:
+                        if w not in self.writes: self.writes.append(w)
+                    self.can_raise = True; body = K(); self.pending = pre
+                    return self.wrap("match %s_%s %s with PyExn %s => EXN_ | PyOk (_, %s) =>\n  %s end" % (self.cls, c.func.attr, " ".join(args), self.state_tuple(callee.writes), self.state_tuple(callee.writes), body))
                 args = self.call_args(callee, c); pre = self.pending; self.pending = []
                 for w in callee.writes:
                     if w not in self.writes: self.writes.append(w)
@@ -701,7 +727,7 @@ def main():
         out_path = os.path.join(os.path.dirname(OUT), "TranslatedImp%s.v" % cls)
         try:
             out = ["(* GENERATED on every run by tools/translate_imp.py from the current source in %s. Do not edit. *)" % REPO,
-                   "From Coq Require Import ZArith List Bool Arith.", "Import ListNotations.", "From CF Require Import PyDict%s." % (" TranslatedImpCFDivisor" if cls == "CFConfigMoves" else ""), "Open Scope Z_scope.", ""]
+                   "From Coq Require Import ZArith List Bool Arith.", "Import ListNotations.", "From CF Require Import PyDict%s." % (" TranslatedImpCFDivisor" if cls == "CFConfigMoves" else (" TranslatedImpCFDivisor TranslatedImpCFGraph" if cls == "CFOrientation" else "")), "Open Scope Z_scope.", ""]
             k = 0
             for path, c, name in TARGETS:
                 if c != cls: continue
